@@ -6,11 +6,12 @@ Open Scope list_scope.
 Definition b2n (b : bool) : N := if b then 1%N else 0%N.
 
 (** one generated field: the column record the compiler attached and the Go type emitted;
-    [base] = the Go type emitted WITHOUT the override set.
+    [base] = the Go type emitted WITHOUT the override set (under the same rename map [rn], which
+    may rename a generated enum type).
     result: [wf; known; holds; corr] where holds is the relational reading of the
     property: the type differs from [base] only if some override matches, and if one
     matches the type is that override's *)
-Definition judge_field (ovs : list gov) (eng : engine) (c : catalog) (tbl : option (string * string * string))
+Definition judge_field (rn : list (string * string)) (ovs : list gov) (eng : engine) (c : catalog) (tbl : option (string * string * string))
            (colname dt : string) (nn arr : bool) (impl base : string) : list N :=
   let colm := existsb (fun o => matches_column o (cat_default c) tbl colname) ovs in
   let dbm := existsb (fun o => matches_dbtype o dt (nn || arr)) ovs in
@@ -23,4 +24,8 @@ Definition judge_field (ovs : list gov) (eng : engine) (c : catalog) (tbl : opti
                  | None => String.eqb impl base
                  end
        end in
-  [1%N; 0%N; b2n holds; b2n (negb (String.eqb impl (go_type_ov ovs eng c tbl colname dt nn arr false)))].
+  let model := match eng with
+               | PostgreSQL => pg_go_type_ov_r rn ovs c tbl colname dt nn arr
+               | _ => go_type_ov ovs eng c tbl colname dt nn arr false
+               end in
+  [1%N; 0%N; b2n holds; b2n (negb (String.eqb impl model))].
